@@ -61,6 +61,9 @@ func setBech32() {
 
 const genesisUnix = 1700000000
 
+// genesisInitialHeight: the height the next NewChain starts at (genesis.json initial_height); reset to 1 after use
+var genesisInitialHeight int64 = 1
+
 func NewChain(n int, denoms []string, mut GenesisMutator) *Chain {
 	setBech32()
 	home, _ := os.MkdirTemp("", "verifharness")
@@ -117,9 +120,10 @@ func NewChain(n int, denoms []string, mut GenesisMutator) *Chain {
 	if err != nil {
 		panic(err)
 	}
-	c := &Chain{A: a, H: 1, T: time.Unix(genesisUnix, 0).UTC(), valSet: valSet, Users: users, Privs: privs, home: home}
-	a.InitChain(abci.RequestInitChain{ConsensusParams: app.DefaultConsensusParams, AppStateBytes: stateBytes, Time: c.T, ChainId: "verif-1"})
+	c := &Chain{A: a, H: genesisInitialHeight, T: time.Unix(genesisUnix, 0).UTC(), valSet: valSet, Users: users, Privs: privs, home: home}
+	a.InitChain(abci.RequestInitChain{ConsensusParams: app.DefaultConsensusParams, AppStateBytes: stateBytes, Time: c.T, ChainId: "verif-1", InitialHeight: genesisInitialHeight})
 	a.Commit()
+	genesisInitialHeight = 1
 	return c
 }
 
